@@ -98,6 +98,101 @@ Fixpoint invalidate (l : list (option saved)) (i : nat) : list (option saved) :=
 Definition is_err_in (e : fret Z) (codes : list Z) : bool :=
   match e with FOk c => existsb (Z.eqb c) codes | _ => false end.
 
+(** the MESSAGE-INTEGRITY step of stun_agent_validate: [inl status] = return that status, [inr ms] = go on *)
+Definition integrity (c : cfg) (buf : bytes) (cls : Z) (err : fret Z) (ignore : bool) (key : option bytes)
+           (ltk0 : bytes) (ltv0 : bool) : res (vstatus + mstate) :=
+  match key with
+  | Some k =>
+    if negb ignore && (0 <? len k) then
+      hf <- find c buf A_MI ;;
+      match hf with
+      | Some (ho, hl) =>
+        if negb (hl =? 20) then Ok (inl V_UNAUTHORIZED) else
+        md <- (if f_long_term c then
+                 if ltv0 then Ok (Some ltk0) else
+                 rf <- find c buf A_REALM ;; uf <- find c buf A_USERNAME ;;
+                 match rf, uf with
+                 | Some (ro, rl), Some (uo, ul) =>
+                   rb <- rd_n buf ro (Z.to_nat rl) ;; ub <- rd_n buf uo (Z.to_nat ul) ;;
+                   Ok (Some (hash_creds rb ub k))
+                 | _, _ => Ok None
+                 end
+               else Ok (Some k)) ;;
+        match md with
+        | None => Ok (inl V_UNAUTHORIZED)
+        | Some hk =>
+          ml <- msg_length buf ;;
+          sha <- (match cf_compat c with
+                  | RFC3489 | OC2007 => stun_sha1 buf (ho + 20) ho hk true
+                  | MSICE2 => stun_sha1 buf (ho + 20) (ml - 20) hk true
+                  | RFC5389 => stun_sha1 buf (ho + 20) ho hk false
+                  end) ;;
+          got <- rd_n buf ho 20 ;;
+          if bytes_eqb sha got
+          then Ok (inr {| m_key := Some k; m_ltk := if f_long_term c then hk else zeros 16; m_ltvalid := f_long_term c |})
+          else Ok (inl V_UNAUTHORIZED)
+        end
+      | None =>
+        if (cls =? 3) && is_err_in err [400; 401] then Ok (inr m0) else Ok (inl V_UNAUTHORIZED)
+      end
+    else Ok (inr m0)
+  | None => Ok (inr m0)
+  end.
+
+(** what follows a passed integrity step: 403 under consent freshness, one-shot invalidation of the matched
+    transaction, MS implementation version, unknown attributes *)
+Definition post_auth (a : agent) (buf : bytes) (cls : Z) (err : fret Z) (sent : option (nat * saved)) (ms : mstate)
+  : res (vstatus * agent * mstate) :=
+  let c := a_cfg a in
+  if f_consent c && (cls =? 3) && is_err_in err [403] then Ok (V_FORBIDDEN, a, ms) else
+  let a1 := match sent with
+            | Some (i, _) => {| a_cfg := c; a_known := a_known a; a_sent := invalidate (a_sent a) i;
+                                a_software := a_software a; a_legacy_connchecks := a_legacy_connchecks a |}
+            | None => a end in
+  iv <- find32 c buf A_MS_IMPL_VERSION ;;
+  let a2 := match iv with
+            | FOk _ => {| a_cfg := c; a_known := a_known a1; a_sent := a_sent a1; a_software := a_software a1;
+                          a_legacy_connchecks := false |}
+            | _ => a1 end in
+  unk <- find_unknowns a buf 1 ;;
+  match unk with
+  | [] => Ok (V_SUCCESS, a2, ms)
+  | _ => Ok (if cls =? 0 then V_UNKNOWN_REQUEST_ATTRIBUTE else V_UNKNOWN_ATTRIBUTE, a2, ms)
+  end.
+
+(* the credential-presence table of stunagent.c *)
+Definition creds_missing (c : cfg) (cls : Z) (keynull ignore h_user h_mi h_nonce h_realm : bool) : bool :=
+  keynull && negb ignore && ((cls =? 0) || (cls =? 1)) &&
+  ((f_short_term c && (negb h_user || negb h_mi)) ||
+   (f_long_term c && (cls =? 0) && (negb h_user || negb h_mi || negb h_nonce || negb h_realm)) ||
+   (negb (f_ignore_creds c) && h_user && negb h_mi)).
+
+(** authentication part of stun_agent_validate, after the length / cookie / fingerprint / transaction checks *)
+Definition authenticate (a : agent) (buf : bytes) (vd : option validater) (cls : Z) (sent : option (nat * saved))
+  : res (vstatus * agent * mstate) :=
+  let c := a_cfg a in
+  let key0 := match sent with Some (_, s) => s_key s | None => None end in
+  let ltk0 := match sent with Some (_, s) => s_ltk s | None => zeros 16 end in
+  let ltv0 := match sent with Some (_, s) => s_ltvalid s | None => false end in
+  err <- (if cls =? 3 then find_error c buf else Ok FNotFound) ;;
+  let ignore := f_ignore_creds c || ((cls =? 3) && is_err_in err [400; 401; 438; 300])
+                || ((cls =? 1) && (f_long_term c || f_no_ind_auth c)) in
+  h_user <- has_attr c buf A_USERNAME ;; h_mi <- has_attr c buf A_MI ;;
+  h_nonce <- has_attr c buf A_NONCE ;; h_realm <- has_attr c buf A_REALM ;;
+  let keynull := match key0 with None => true | Some _ => false end in
+  if creds_missing c cls keynull ignore h_user h_mi h_nonce h_realm then Ok (V_UNAUTHORIZED_BAD_REQUEST, a, m0) else
+  ufind <- find c buf A_USERNAME ;;
+  uname <- (match ufind with Some (o, l) => rd_n buf o (Z.to_nat l) | None => Ok [] end) ;;
+  let call_v := h_mi && ((keynull && negb ignore) || f_force_validater c) in
+  let vres := if call_v then match vd with None => None | Some t => lookup_user t uname end else None in
+  if call_v && (match vres with None => true | Some _ => false end) then Ok (V_UNAUTHORIZED, a, m0) else
+  let key := if call_v then vres else key0 in
+  r <- integrity c buf cls err ignore key ltk0 ltv0 ;;
+  match r with
+  | inl st => Ok (st, a, m0)
+  | inr ms => post_auth a buf cls err sent ms
+  end.
+
 (** stun_agent_validate (agent, msg, buffer, buffer_len, validater, data): status, new agent, msg state *)
 Definition validate (a : agent) (buf : bytes) (vd : option validater) : res (vstatus * agent * mstate) :=
   let c := a_cfg a in
@@ -114,84 +209,7 @@ Definition validate (a : agent) (buf : bytes) (vd : option validater) : res (vst
     let is_resp := (cls =? 2) || (cls =? 3) in
     let sent := if is_resp then find_sent (a_sent a) (msg_id buf) meth O else None in
     if is_resp && (match sent with None => true | Some _ => false end) then Ok (V_UNMATCHED_RESPONSE, a, m0) else
-    let key0 := match sent with Some (_, s) => s_key s | None => None end in
-    let ltk0 := match sent with Some (_, s) => s_ltk s | None => zeros 16 end in
-    let ltv0 := match sent with Some (_, s) => s_ltvalid s | None => false end in
-    err <- (if cls =? 3 then find_error c buf else Ok FNotFound) ;;
-    let ignore := f_ignore_creds c || ((cls =? 3) && is_err_in err [400; 401; 438; 300])
-                  || ((cls =? 1) && (f_long_term c || f_no_ind_auth c)) in
-    h_user <- has_attr c buf A_USERNAME ;; h_mi <- has_attr c buf A_MI ;;
-    h_nonce <- has_attr c buf A_NONCE ;; h_realm <- has_attr c buf A_REALM ;;
-    let keynull := match key0 with None => true | Some _ => false end in
-    if keynull && negb ignore && ((cls =? 0) || (cls =? 1)) &&
-       ((f_short_term c && (negb h_user || negb h_mi)) ||
-        (f_long_term c && (cls =? 0) && (negb h_user || negb h_mi || negb h_nonce || negb h_realm)) ||
-        (negb (f_ignore_creds c) && h_user && negb h_mi))
-    then Ok (V_UNAUTHORIZED_BAD_REQUEST, a, m0) else
-    (* validater call *)
-    ufind <- find c buf A_USERNAME ;;
-    uname <- (match ufind with Some (o, l) => rd_n buf o (Z.to_nat l) | None => Ok [] end) ;;
-    let call_v := h_mi && ((keynull && negb ignore) || f_force_validater c) in
-    let vres := if call_v then match vd with None => None | Some t => lookup_user t uname end else None in
-    if call_v && (match vres with None => true | Some _ => false end) then Ok (V_UNAUTHORIZED, a, m0) else
-    let key := if call_v then vres else key0 in
-    (* integrity *)
-    r <- (match key with
-          | Some k =>
-            if negb ignore && (0 <? len k) then
-              hf <- find c buf A_MI ;;
-              match hf with
-              | Some (ho, hl) =>
-                if negb (hl =? 20) then Ok (inl V_UNAUTHORIZED) else
-                md <- (if f_long_term c then
-                         if ltv0 then Ok (Some ltk0) else
-                         rf <- find c buf A_REALM ;; uf <- find c buf A_USERNAME ;;
-                         match rf, uf with
-                         | Some (ro, rl), Some (uo, ul) =>
-                           rb <- rd_n buf ro (Z.to_nat rl) ;; ub <- rd_n buf uo (Z.to_nat ul) ;;
-                           Ok (Some (hash_creds rb ub k))
-                         | _, _ => Ok None
-                         end
-                       else Ok (Some k)) ;;
-                match md with
-                | None => Ok (inl V_UNAUTHORIZED)
-                | Some hk =>
-                  ml <- msg_length buf ;;
-                  sha <- (match cf_compat c with
-                          | RFC3489 | OC2007 => stun_sha1 buf (ho + 20) ho hk true
-                          | MSICE2 => stun_sha1 buf (ho + 20) (ml - 20) hk true
-                          | RFC5389 => stun_sha1 buf (ho + 20) ho hk false
-                          end) ;;
-                  got <- rd_n buf ho 20 ;;
-                  if bytes_eqb sha got
-                  then Ok (inr {| m_key := Some k; m_ltk := if f_long_term c then hk else zeros 16; m_ltvalid := f_long_term c |})
-                  else Ok (inl V_UNAUTHORIZED)
-                end
-              | None =>
-                if (cls =? 3) && is_err_in err [400; 401] then Ok (inr m0) else Ok (inl V_UNAUTHORIZED)
-              end
-            else Ok (inr m0)
-          | None => Ok (inr m0)
-          end) ;;
-    match r with
-    | inl st => Ok (st, a, m0)
-    | inr ms =>
-      if f_consent c && (cls =? 3) && is_err_in err [403] then Ok (V_FORBIDDEN, a, ms) else
-      let a1 := match sent with
-                | Some (i, _) => {| a_cfg := c; a_known := a_known a; a_sent := invalidate (a_sent a) i;
-                                    a_software := a_software a; a_legacy_connchecks := a_legacy_connchecks a |}
-                | None => a end in
-      iv <- find32 c buf A_MS_IMPL_VERSION ;;
-      let a2 := match iv with
-                | FOk _ => {| a_cfg := c; a_known := a_known a1; a_sent := a_sent a1; a_software := a_software a1;
-                              a_legacy_connchecks := false |}
-                | _ => a1 end in
-      unk <- find_unknowns a buf 1 ;;
-      match unk with
-      | [] => Ok (V_SUCCESS, a2, ms)
-      | _ => Ok (if cls =? 0 then V_UNKNOWN_REQUEST_ATTRIBUTE else V_UNKNOWN_ATTRIBUTE, a2, ms)
-      end
-    end
+    authenticate a buf vd cls sent
   end.
 
 (** stun_agent_finish_message (agent, msg, key, key_len): Some (length, buffer) or None (returns 0) *)
